@@ -73,7 +73,8 @@ type worldJ struct {
 	ReadTimeoutMs int            `json:"readTimeoutMs,omitempty"`
 	BufferSize    int64          `json:"bufferSize,omitempty"`
 	Probe         bool           `json:"probe,omitempty"`
-	AllViews      bool           `json:"allViews,omitempty"` // reference images for every directory of the tree, both modes
+	AllViews      bool           `json:"allViews,omitempty"`  // reference images for every directory of the tree, both modes
+	ReadChunk     int            `json:"readChunk,omitempty"` // deliver request bytes to the server in pieces of at most this size
 	LogOps        bool           `json:"logOps,omitempty"`
 }
 
@@ -398,6 +399,7 @@ func (env *sessionEnv) connect(cj *connJ) *memConn {
 		}
 	}
 	c := newMemConn(cj.ID, remote)
+	c.readChunk = env.wj.ReadChunk
 	env.ln.Dial(c)
 	c.WaitQuiescent(10 * time.Second)
 	env.em.emit(map[string]interface{}{"ev": "Connect", "c": cj.ID})
